@@ -90,8 +90,14 @@ func (d *c19Data) methSpecified(o *occ) bool {
 			return false
 		}
 	}
-	for _, g := range d.tc.GDefs {
-		if c14Global(g.N) == d.methTable(o) && g.Top {
+	// a top-level definition of the table in another file, or earlier in this file (a member function written before
+	// the only definition of its table indexes nil when it runs)
+	for k := range d.r.Occ {
+		g := &d.r.Occ[k]
+		if g.Role != "gdef" || g.Name != d.methTable(o) || !d.tc.Items[g.Item].Top {
+			continue
+		}
+		if g.File != o.File || g.Line < o.Line || (g.Line == o.Line && g.Col < o.Col) {
 			return true
 		}
 	}
